@@ -30,6 +30,7 @@ type Header struct {
 	SnapThresh int       `json:"snap_thresh,omitempty"`
 	Padding    int       `json:"padding,omitempty"`
 	DiskCheck  bool      `json:"disk_check,omitempty"`
+	DynamicMembers bool  `json:"dynamic_members,omitempty"`
 	Single     bool      `json:"single_bootstrap,omitempty"` // bootstrap one node, add the others through AddServer
 }
 
